@@ -62,6 +62,7 @@ func runC06(c *Ctx) {
 	}
 
 	c.ruleRegistryInserts()
+	c.ruleFlatten()
 
 	// --- C06.inc / C06.replace / C06.dec on paths
 	for _, f := range p.FuncsIn(PkgRoot) {
@@ -664,7 +665,7 @@ func runC07(c *Ctx) {
 	// --- C07.node
 	if fn := c.Fn("C07.node", PkgRoot, "Broker", "RegisterNode"); fn != nil {
 		nAssign := 0
-		for _, pa := range c.enum("C07.node", fn, PathOpts{}) {
+		for _, pa := range c.enum("C07.node", fn, PathOpts{Inline: inlineSmall("eventlogger.getOpts")}) {
 			var mu *ssa.MapUpdate
 			var muStep Step
 			for _, s := range pa.Steps {
